@@ -19,6 +19,7 @@ def c07(ctx: Ctx):
         write_ndjson(cases, [ctx.replay["violation"]["c"]])
     else:
         ctx.tlc("MC_C07", "MC_C07.cfg", label="D security automaton: verdict = SecOK, calls = ExpectedCalls")
+        ctx.tlc("MC_C07", "MC_C07_abort.cfg", expect_violation=True, label="D variant 'undeclared scheme aborts the list' breaks the contract")
         ctx.tlc("Gen_C07", "Gen_C07_%s.cfg" % ctx.tier, label="F generate cases")
         n = ctx.unquote(ctx.spec("cases.ndjson"), cases)
         log("[gen] %d cases" % n)
